@@ -440,7 +440,7 @@ comment = (
 
 quoted_string = Regex(r'"[^"]*"')
 unquoted_string = Regex(r'[^"\n:]+')
-unclosed_quoted_string = Regex(r'"[^"\n]+') + FollowedBy(LineEnd())
+unclosed_quoted_string = Regex(r'"[^"\n]*') + FollowedBy(LineEnd())
 data_clause = quoted_string | unquoted_string
 data_stmt = (
     data_kw.suppress() -
